@@ -157,6 +157,18 @@ def gen_update_case(r, tier):
                 payload = payload[: r.randrange(0, 8)]
             kind = "to-" + cls
         frames.append((kind, payload))
+    if role == "mesh" and r.random() < 0.2:
+        # a relayed address request whose answer cannot be delivered (no NETWORK_ACK ever comes), and LATER a frame that has
+        # to be dropped: nothing of the first may be left over to act on the second
+        req = pack_hdr(r.choice([0o12, 0o23, 0o1234, 0o15]), 0, r.randrange(65536), 195, r.choice([7, 200, 3]))
+        bad = pack_hdr(r.choice([0o6, 0xFFFF, 0o3, 0o20, 0o7]), r.choice([0, 0o7777, 0xFFFF, 0]), r.randrange(65536),
+                       r.choice([0, 1, 195, 65]), r.choice([9, 0, 44])) + bytes(r.randrange(256) for _ in range(r.choice([0, 2])))
+        if not (spec(bad[0] | bad[1] << 8) and spec(bad[2] | bad[3] << 8)):
+            frames = [("relayed-request", req), ("dropped-later", bad)] + frames[:1]
+            for kind, payload in frames:
+                ops += [("inject", 0, 1, payload), ("update",), ("air",)]
+            ops += [("update",), ("air",)]
+            return specs, ops, {"role": role, "addr": addr, "frames": [(k, p.hex()) for k, p in frames]}
     together = r.random() < 0.25      # several frames waiting in the RX FIFO for ONE update()
     if together:
         # ... the last of them one that must be dropped
